@@ -253,7 +253,7 @@ func c06Jobs(tier string) []*SeqJob {
 		}
 		return guard(func() (string, string) { return sanCheck(cfgs[ci], fnOf(cfgs[ci]), in) })
 	}
-	return []*SeqJob{job, c06E2EJob(tier)}
+	return []*SeqJob{job, c06E2EJob(tier), c06RolesJob(tier)}
 }
 
 // c06Scenarios: concurrent sanitising through the shared buffer pool.
